@@ -298,8 +298,12 @@ def run_case(case):
         spec2 = base_spec(n)
         spec2["options"]["maxfev"] = 3 * n + 10
         where = str(rng.choice(["option", "constant", "both"]))
+        # the value carried by an unknown name is nobody's business: it may
+        # be non-finite or not a number at all
+        odd = [7.0, 7.0, "inf", "nan", None, -1.0, "-inf"]
         if where in ("option", "both"):
-            spec2["options"]["max_fev"] = 3
+            spec2["options"]["max_fev"] = [3, 3, "inf", "nan", None][
+                int(rng.integers(5))]
         if where in ("constant", "both"):
             # a misspelt constant, or a name that happens to be a parameter
             # of an internal routine the constants are forwarded to
@@ -308,7 +312,8 @@ def run_case(case):
                                     "hess_prod", "aub", "bub", "aeq", "beq",
                                     "const", "curv", "xpt", "kwargs", "self",
                                     "pb", "penalty"]))
-            spec2["constants"][uname] = 7.0 if uname != "debug" else True
+            spec2["constants"][uname] = odd[int(rng.integers(len(odd)))] \
+                if uname != "debug" else True
             where = where + ":" + ("misspelt" if uname == "radius_increase"
                                    else "internal_parameter_name")
         rec = mrun.run(spec2)
